@@ -72,10 +72,10 @@ def main(argv):
         # every other process builds the cases in the opposite order: the output for a case must not depend on what the
         # process built before ("regardless of ... the process it runs in")
         if k % 2 == 1:
-            io, mo = BC.run_builds(cases[::-1], hashseed=hs, order_seed=1000 + k)
+            io, mo = BC.run_builds(cases[::-1], hashseed=hs, order_seed=1000 + k, twice=True)
             io, mo = io[::-1], mo[::-1]
         else:
-            io, mo = BC.run_builds(cases, hashseed=hs, order_seed=1000 + k)
+            io, mo = BC.run_builds(cases, hashseed=hs, order_seed=1000 + k, twice=(k == 0))
         runs.append(io)
         model = mo
     # content hashes by the Gallina MD5/UTF-8 model (op 603), one evaluation per distinct file contents
@@ -90,7 +90,13 @@ def main(argv):
         rep.case({'cfg': c['cfg'], 'file': c['file']}, nontrivial=True, shape=f'largest explicit name set: {biggest}')
         outs = [r[ci] for r in runs]
         problem, failing = None, True
+        for k, o in enumerate(outs):
+            if o[0] == 'unstable':     # (in some processes every case is built twice from the same parsed model and an equal configuration)
+                problem = f'equal inputs - the same parsed model, an equal configuration, the same process - give different results: {o[1][:400]}'
+                break
         for k in range(1, len(outs)):
+            if problem:
+                break
             if outs[k] != outs[0]:
                 d = BC.first_diff(outs[0][1], outs[k][1]) if outs[0][0] == 'ok' and outs[k][0] == 'ok' else f'{outs[0][0]} vs {outs[k][0]}'
                 problem = (f'equal inputs give different output in two processes (PYTHONHASHSEED={seeds[0]} and {seeds[k]}, sets built in '
